@@ -65,6 +65,12 @@ INFO = {
     "C11-3": ("FrontendImpl<T>::preallocate() fetches the thread context of the DEFAULT FrontendOptions", "a user-defined FrontendOptions type and preallocate() before the first statement: the first log call builds the real context (allocates) on the caller"),
     "C13-3": ("PatternFormatterOptions::operator== ignores timestamp_timezone", "two loggers differing only in GmtTime/LocalTime, %(time) in the pattern, a local zone different from UTC"),
     "C15-3": ("initial rotation point of hourly/minutely rotation computed on the UTC grid (gmtime/timegm) for every zone", "hourly rotation, Timezone::LocalTime, a zone whose UTC offset is not a whole number of hours"),
+    "C03-4": ("UnboundedSPSCQueue::empty() no longer looks at the successor buffer (same change as C07-2, found independently)", "queue with more than one buffer, a read pass that stops exactly on the buffer boundary (exact fill, hard limit, or drained buffer before a shrink), then a decision based on empty(): reclaim of an exited thread, exit drain, ManualBackendWorker::poll()"),
+    "C05-4": ("UnboundedSPSCQueue::empty() no longer looks at the successor buffer (same change as C07-2 / C03-4)", "grown or shrunk queue whose old buffer is drained exactly at the end of a pass, batch mode (cached events >= soft limit), another thread with a newer cached statement"),
+    "C06-4": ("ts_now (grace-period cut-off) refreshed after every queue of a pass instead of once per pass", "thread A logs, thread B flushes; A's queue is read before B's and the backend needs longer between the two reads than the gap between the two calls; nothing older cached"),
+    "C10-4": ("BacktraceStorage::process() declared noexcept", "a sink whose write_log throws for a replayed backtrace statement: std::terminate (on the tree before fix F22; the F22 fix catches the exception inside the callback, so the change no longer manifests on the current tree)"),
+    "C12-4": ("TransitEvent move assignment forgets dynamic_log_level (same change as seed C16, found independently for C12)", "dynamic-level or runtime-metadata statement waiting in the transit buffer when it grows; pattern with %(log_level) / %(log_level_short_code)"),
+    "C16-4": ("apply_all_filters reloads the backend's filter copy only when try_lock() succeeds", "a statement rejected by a just-attached filter is evaluated while another thread is inside add_filter() on the same sink"),
     "C17-2": ("SinkManager::_insert_sink uses upper_bound", "a sink expires without a logger removal, the same sink name is created again and looked up before any logger is removed"),
 }
 for name, (change, needs) in INFO.items():
